@@ -7,6 +7,8 @@ import (
 	"hash/fnv"
 	"math/rand"
 	"net"
+	"os"
+	"path/filepath"
 	"regexp"
 	"strconv"
 	"strings"
@@ -21,8 +23,9 @@ import (
 var listenRe = regexp.MustCompile(`Listening on \[::\]:(\d+)`)
 
 // startServer starts the stand-alone proxy binary on a free port.
-func startServer(r *core.Run, bin, name string) (*core.Proc, string, error) {
-	p, err := r.StartProc(name, bin, []string{"--port=0"})
+func startServer(r *core.Run, bin, name string, env ...string) (*core.Proc, string, error) {
+	env = append(env, "VERIF_HOOK_STATS="+filepath.Join(r.WorkDir, "hooks-"+name))
+	p, err := r.StartProc(name, bin, []string{"--port=0"}, env...)
 	if err != nil {
 		return nil, "", err
 	}
@@ -273,4 +276,21 @@ func tail(s string, n int) string {
 		return s[len(s)-n:]
 	}
 	return s
+}
+
+// hookHits reads the hit counters a hooked process dumped (VERIF_HOOK_STATS).
+func hookHits(r *core.Run, name string) map[string]int {
+	out := map[string]int{}
+	b, err := os.ReadFile(filepath.Join(r.WorkDir, "hooks-"+name))
+	if err != nil {
+		return out
+	}
+	for _, ln := range strings.Split(string(b), "\n") {
+		var k string
+		var v int
+		if n, _ := fmt.Sscanf(ln, "%s %d", &k, &v); n == 2 {
+			out[k] = v
+		}
+	}
+	return out
 }
